@@ -149,6 +149,26 @@ def _w(ws):
     return "[%s]" % ", ".join("@%d[%#x]=%#x" % (s, a, v) for a, s, v in ws)
 
 
+class AnalysisTimeout(Exception):
+    pass
+
+
+def guarded(fn, cpu_seconds=30):
+    """Runs fn(); an analysis still running after @cpu_seconds of CPU time of this process (normal: < 0.1 s) is
+    reported as not terminating (the timer counts consumed CPU time, not wall-clock time)."""
+    import signal
+
+    def onalarm(signum, frame):
+        raise AnalysisTimeout()
+    old = signal.signal(signal.SIGVTALRM, onalarm)
+    signal.setitimer(signal.ITIMER_VIRTUAL, cpu_seconds)
+    try:
+        return fn()
+    finally:
+        signal.setitimer(signal.ITIMER_VIRTUAL, 0)
+        signal.signal(signal.SIGVTALRM, old)
+
+
 def check_graph(n, shape_idx, body_idx, cond_idx, alphabet, conds):
     from miasm.analysis.cst_propag import propagate_cst_expr
     shape = irgen.shapes(n)[shape_idx]
@@ -160,7 +180,10 @@ def check_graph(n, shape_idx, body_idx, cond_idx, alphabet, conds):
     g = irgen.build(shape, body_idx, cond_idx, alphabet, conds)
     before = graph_text(g.ircfg)
     try:
-        propagate_cst_expr(g.lifter, g.ircfg, g.head, g.lifter.arch.regs.regs_init)
+        guarded(lambda: propagate_cst_expr(g.lifter, g.ircfg, g.head, g.lifter.arch.regs.regs_init))
+    except AnalysisTimeout:
+        info["raised"] += 1
+        return [violation("propagate_cst_expr:does-not-terminate:%s" % kind, "%s: propagate_cst_expr is still running after 30 s of CPU time" % desc, case)], info
     except Exception as e:
         info["raised"] += 1
         return [violation("propagate_cst_expr:raise:%s:%s" % (type(e).__name__, kind), "%s: propagate_cst_expr raised %r" % (desc, e), case)], info
@@ -184,7 +207,10 @@ def check_x86(idx):
     desc = "x86_32 function %s {%s }" % (name, " ;".join(l.strip() for l in x86funcs.FUNCS[idx][1].splitlines()))
     before = graph_text(f.ircfg)
     try:
-        propagate_cst_expr(f.lifter, f.ircfg, x86funcs.BASE, f.lifter.arch.regs.regs_init)
+        guarded(lambda: propagate_cst_expr(f.lifter, f.ircfg, x86funcs.BASE, f.lifter.arch.regs.regs_init))
+    except AnalysisTimeout:
+        info["raised"] += 1
+        return [violation("propagate_cst_expr:does-not-terminate:%s" % kind, "%s: propagate_cst_expr is still running after 30 s of CPU time" % desc, case)], info
     except Exception as e:
         info["raised"] += 1
         return [violation("propagate_cst_expr:raise:%s:%s" % (type(e).__name__, kind), "%s: propagate_cst_expr raised %r" % (desc, e), case)], info
